@@ -395,6 +395,8 @@ def r_mod(a, b):
 
 def r_sqrt(a):
     """sqrt as an exact rational if possible, else a fresh non-negative symbol y with y*y = a."""
+    if _has_fp(a):
+        return a.sqrt()
     if not is_sym(a):
         a = _cnum(a)
         if is_special(a):
@@ -575,6 +577,8 @@ def r_xor(a, b):
 
 
 def r_abs(a):
+    if _has_fp(a):
+        return abs(a)
     if is_sym(a):
         a = _num(a)
         return wrap(z3.If(a >= 0, a, -a))
@@ -583,6 +587,8 @@ def r_abs(a):
 
 def r_floor(a):
     """np.floor: float in, float out."""
+    if _has_fp(a):
+        return a.round_to_integral("floor")
     if is_sym(a):
         if a.sort() == z3.IntSort():
             return wrap(z3.ToReal(a))
@@ -593,7 +599,27 @@ def r_floor(a):
     return Fraction(_math.floor(a))
 
 
+def r_rint(a):
+    """np.rint / np.round(decimals=0): round half to even; float in, float out."""
+    if _has_fp(a):
+        return a.round_to_integral("even")
+    if is_sym(a):
+        if a.sort() == z3.IntSort():
+            return wrap(z3.ToReal(a))
+        f = z3.ToInt(a)                         # floor
+        d = a - z3.ToReal(f)
+        half = z3.RealVal("1/2")
+        up = z3.Or(d > half, z3.And(d == half, f % 2 != 0))
+        return wrap(z3.ToReal(z3.If(up, f + 1, f)))
+    a = _cnum(a)
+    if is_special(a):
+        return a
+    return Fraction(round(Fraction(a)))
+
+
 def r_ceil(a):
+    if _has_fp(a):
+        return a.round_to_integral("ceil")
     if is_sym(a):
         if a.sort() == z3.IntSort():
             return wrap(z3.ToReal(a))
